@@ -12,6 +12,7 @@ import (
 	"testing"
 	"time"
 
+	"github.com/bool64/cache"
 	zs "github.com/bool64/cache/zzverifsim"
 )
 
@@ -481,4 +482,18 @@ func replayMain(t *testing.T, path string) {
 			fmt.Printf("OTHER %s: %s\n", x.Signature(), x.Detail)
 		}
 	}
+}
+
+// TestHashHelper registers the pool members named in VERIF_HASH_ORDER and prints the hash.
+func TestHashHelper(t *testing.T) {
+	order := os.Getenv("VERIF_HASH_ORDER")
+	if order == "" {
+		t.Skip()
+	}
+
+	for _, c := range order {
+		cache.GobRegister(hashPool[int(c-'0')])
+	}
+
+	fmt.Printf("TYPESHASH=%d\n", cache.GobTypesHash())
 }
